@@ -1,7 +1,7 @@
 """Configuration of the C06 check (read by ./check and tools/mkmanifest.py)."""
 
 CONF = dict(
-    cmd='c06',
+    cmd='c06l',
     props='Props/C06.v',
     glue='Extract/GlueC06.v',
     rule=('histories of 5..400 operations on the real handleRequest/updateTXTimestamp (verif hook, scripted clock) from 1..6 clients: requests whose origin is the '
@@ -10,20 +10,34 @@ CONF = dict(
           'transmit-timestamp reports that repeat the reported value (unread), are not later than the receive time, or are later (kernel), delivered in order, delayed past '
           'later operations, duplicated, or for exchanges not on record; bursts that fill the 8 slots of one client. After every operation the reply, the reported times, the '
           'client\'s stored exchanges and the queue are recorded. A history is non-trivial when it contains at least one interleaved reply, one receive-time collision and '
-          'one dropped exchange; distinct = distinct (kind, input)'),
+          'one dropped exchange. '
+          'tss.full: the same operations on the store at its real capacity 2^20 - known clients holding 1..8 exchanges (incl. full items), newcomers older than / as recent as / '
+          '1 ns older than / newer than the least recently active client, clients that lost their state and come back naming their old exchange - every operation with the '
+          'client\'s REAL item before and after (hook VerifTSSClient); non-trivial = an interleaved reply from a multi-exchange item, a collision and a dropped exchange while the '
+          'store is full. tss.flood: every newcomer\'s request names another client\'s receive stamp with receive != transmit field and its reply is checked; afterwards probes '
+          '(own / foreign / replaced origin) of newcomers with and without state, evicted and surviving base clients, each with real before/after items. '
+          'lsn.hist: histories of 6..100 NTP requests played against the REAL IP and SCION listeners (StartIPServer, StartSCIONServer in a child process on loopback, real clock, '
+          'kernel timestamps), one request in flight at a time, from 4 addresses x 3 ports (IP; equal port numbers on all addresses) and 3 ISD-ASes x 3 hosts x 2 UDP ports x 2 '
+          'underlay sockets (SCION; one host equals an IP client\'s address): interleaved requests built from earlier replies of the same client (same or another socket, '
+          'most recent or older than the 8 kept), requests naming another client\'s exchange (other address / same host under another ISD-AS / same ISD-AS other host / '
+          'the other listener), duplicated request datagrams, origin on record but receive == transmit field; observed: origin, receive, transmit and reference stamp of every '
+          'reply datagram. A client is what the listeners key the store with: the source address (IP) or (ISD-AS, host address) (SCION); the UDP port is not part of the identity. '
+          'Non-trivial = at least one interleaved reply and one request naming another client\'s exchange; distinct = distinct (kind, input)'),
     assumptions=['all times of one history lie in one NTP era (Time64 comparison wraps at era boundaries; the 2036 rollover is outside the statement)',
                  'code under tssMu is one atomic step (see C07 for the lock discipline)',
                  'time.Time as unbounded nanoseconds; Time.Add exact, Before is <'],
-    trusted=['modelled, not verified: container/heap (by contract: Pop returns a minimum), Go maps, the verif hook core/server/hooks_verif.go (add-only entry points and snapshot)'],
+    trusted=['modelled, not verified: container/heap (by contract: Pop returns a minimum), Go maps, the verif hook core/server/hooks_verif.go (add-only entry points and snapshot)',
+             'lsn.hist: the loopback kernel (software receive/transmit timestamps from one clock; SO_REUSEPORT keeps one 4-tuple on one listener goroutine), gopacket/slayers used to build and parse the SCION datagrams'],
     technique=('Coq proof: one inductive invariant of the timestamp store preserved by handleRequest and updateTXTimestamp for every operation list (distinct receive stamps '
                'per client, tx > rx for every record, queue value >= every stored stamp, index = map), a ghost log of replies for provenance/isolation, termination of the '
-               'collision loop by a counting measure; differential execution of the extracted model and evaluation of the reply/record oracle on the real code through the hook'),
+               'collision loop by a counting measure; differential execution of the extracted model and evaluation of the reply/record oracle on the real code through the hook; a listener-level oracle over what is visible on the wire, proved to accept the projection of every run of the model, evaluated on datagrams of the real listeners, plus a relational replay of each listener history on the model'),
     level_text=('Theorems hold for every finite history of requests and transmit-timestamp reports of any mix of clients (any interleaving of listeners is such a history), all '
                 'receive times / clock readings / reported times within one NTP era, all capacities; the model is tied to handleRequest/updateTXTimestamp by replaying '
-                'generated histories on the real code every run and comparing replies, reported times and stored exchanges; the C06 oracle is evaluated on the implementation\'s observations'),
-    level_note=('Trusted: Coq kernel, hand-written model validated by the correspondence run, extraction, harness, hook. One NTP era. The listeners that call these functions are '
-                'covered by C09/C13. No axioms.'),
-    explanation='oracle clauses: reply carries the receive stamp, fresh for the client; basic/interleaved shape; interleaved iff own record with that receive stamp and rx != tx; served transmit stamp later than its receive stamp; reported transmit time recorded, unread one dropped',
+                'generated histories on the real code every run and comparing replies, reported times and stored exchanges; the C06 oracle is evaluated on the implementation\'s observations. The wiring of the listeners (client identity = address resp. ISD-AS+host, receive stamp of THIS datagram, transmit-timestamp report with the final receive time and the kernel stamp of THIS reply) is inside the check: C06_listener_oracle shows that the wire-level oracle (basic/interleaved shape; interleaved only for a receive stamp an earlier reply to the SAME client carried; served transmit stamp later than it) holds for every history of the model, and it is evaluated on reply datagrams of the real IP and SCION listeners on loopback'),
+    level_note=('Trusted: Coq kernel, hand-written model validated by the correspondence run, extraction, harness, hook. One NTP era. At the listeners the kernel transmit stamp and the clock reading are not observable: '
+                'that the served transmit stamp is the kernel stamp of THAT reply is checked relationally (between the software transmit time of that exchange and the receive stamp of the '
+                'request that asks for it), not by the property oracle; receive-time collisions cannot be produced through the kernel (hook-level kinds only). No axioms.'),
+    explanation='oracle clauses: reply carries the receive stamp, fresh for the client; basic/interleaved shape; interleaved iff own record with that receive stamp and rx != tx; served transmit stamp later than its receive stamp; reported transmit time recorded, unread one dropped; listener oracle: basic/interleaved shape, interleaved only if an earlier reply to the same client carried the named receive stamp (isolation), served transmit stamp later than it, own receive stamp different',
     timeout_quick=900, timeout_thorough=3000,
     min_cases={'tss.flood': 1, 'tss.hist': 210, 'tss.lockdiscipline': 1},
 )
